@@ -29,7 +29,7 @@ plugging in different transport and executor implementations without changing co
 import uuid
 import queue
 import threading
-from concurrent.futures import Future
+from concurrent.futures import Future, InvalidStateError
 from typing import Any, Dict, List, Optional, Union
 
 from semantiva.execution.transport.base import SemantivaTransport
@@ -182,15 +182,23 @@ class QueueSemantivaOrchestrator:
 
                 # If the user requested a Future, resolve it now
                 if jid in self.pending_futures:
+                    fut = self.pending_futures.pop(jid)
                     error = (msg.metadata or {}).get("error")
-                    if error is not None:
-                        # The worker reported a failed job: complete exceptionally
-                        if not isinstance(error, BaseException):
-                            error = RuntimeError(str(error))
-                        self.pending_futures[jid].set_exception(error)
-                    else:
-                        self.pending_futures[jid].set_result((msg.data, msg.context))
-                    del self.pending_futures[jid]
+                    try:
+                        if fut.cancelled():
+                            # The caller gave up on this job; nothing to deliver.
+                            pass
+                        elif error is not None:
+                            # The worker reported a failed job: complete exceptionally
+                            if not isinstance(error, BaseException):
+                                error = RuntimeError(str(error))
+                            fut.set_exception(error)
+                        else:
+                            fut.set_result((msg.data, msg.context))
+                    except InvalidStateError:
+                        # Cancelled between the check and the completion: one
+                        # caller's cancel() must not take the master down.
+                        pass
 
                 # Acknowledge receipt if transport supports it
                 try:
